@@ -8,7 +8,7 @@ Symbolic execution of straight-line Python with if/else merging:
     `min`/`max`;
   * anything else becomes an *opaque local* (`loc:<func>.<name>`, observed by the harness through tracing) or an opaque
     call (`call`), never a guess.  Non-elementwise numpy operations become `nonElem` nodes."""
-import ast, os, sys, json, decimal
+import ast, re, os, sys, json, decimal
 
 SRC = os.path.join(os.environ.get("HMF_REPO", "/repo"), "src", "hmf")
 UFUNC = {"exp": "exp", "log": "log", "sqrt": "sqrt", "abs": "abs", "cosh": "cosh", "sin": "sin", "cos": "cos", "log10": "log10", "fabs": "abs"}
@@ -684,6 +684,36 @@ def flow():
     return items, meta
 
 
+WIRING = [("cosmology/cosmo.py", "Cosmology"), ("density_field/transfer.py", "Transfer"), ("mass_function/hmf.py", "MassFunction"),
+          ("alternatives/wdm.py", "TransferWDM"), ("alternatives/wdm.py", "MassFunctionWDM")]
+
+
+def wiring():
+    """which quantity feeds which input of every component the framework classes construct: for each `self.<x>_model(...)` call in a
+    cached quantity, the callee and the source text of every argument (keywords sorted; positionals by index)"""
+    rows = []
+    for rel, cls in WIRING:
+        mod = Module(rel)
+        for fn in mod.classes[cls].body:
+            if not (isinstance(fn, ast.FunctionDef) and any(ast.unparse(d).split(".")[-1] == "cached_quantity" for d in fn.decorator_list)):
+                continue
+            k = 0
+            for n in ast.walk(fn):
+                if not (isinstance(n, ast.Call) and isinstance(n.func, ast.Attribute)):
+                    continue
+                callee = ast.unparse(n.func)
+                if re.fullmatch(r"self\.[A-Za-z_]+_model(\.clone)?", callee):
+                    args = [(f"#{i}", ast.unparse(a)) for i, a in enumerate(n.args)]
+                    args += sorted(((kw.arg or "**"), ast.unparse(kw.value)) for kw in n.keywords)
+                    rows.append((f"{cls}.{fn.name}" + (f"#{k}" if k else ""), [("callee", callee[5:])] + args))
+                    k += 1
+    rows.sort()
+    L = ["def wiring : List (String × List (String × String)) := ["]
+    L.append(",\n".join("  (" + lean_str(site) + ", [" + ", ".join(f"({lean_str(a)}, {lean_str(b)})" for a, b in args) + "])" for site, args in rows))
+    L.append("]")
+    return "\n".join(L), rows
+
+
 COMPONENTS = [
     # (namespace, file, base class, [(method, is_property)], input attrs of self)
     ("Wdm", "alternatives/wdm.py", "WDM", [("transfer", False), ("lam_eff_fs", True), ("m_fs", True), ("lam_hm", True), ("m_hm", True)],
@@ -768,8 +798,10 @@ def main():
     emit_module(os.path.join(gen, "ExprFits.lean"), "Fits", items, extra=defaults_lean(meta, items))
     out["fits"] = meta
     fitems, fmeta = flow()
-    emit_module(os.path.join(gen, "ExprFlow.lean"), "Flow", fitems)
+    wtext, wrows = wiring()
+    emit_module(os.path.join(gen, "ExprFlow.lean"), "Flow", fitems, extra=wtext)
     out["flow"] = fmeta
+    out["wiring"] = wrows
     print("pyexpr: flow", len(fitems), "unsupported", {k: v["unsupported"] for k, v in fmeta.items() if "unsupported" in v})
     mitems, mmeta = module_functions()
     emit_module(os.path.join(gen, "ExprHalofit.lean"), "Halofit", mitems)
